@@ -17,6 +17,9 @@ type PythonIdentListener struct {
 
 var currentCodeFile *core_domain.CodeContainer
 var currentDataStruct *core_domain.CodeDataStruct
+
+// the classes enclosing currentDataStruct, innermost last (a class may be declared inside a class or a function)
+var enclosingDataStructs []*core_domain.CodeDataStruct
 var debug = false
 var output io.Writer
 var hasEnterMember = false
@@ -24,6 +27,7 @@ var hasEnterMember = false
 func NewPythonIdentListener(fileName string) *PythonIdentListener {
 	currentCodeFile = &core_domain.CodeContainer{}
 	currentCodeFile.FullName = fileName
+	enclosingDataStructs = nil
 	output = os.Stdout
 
 	return &PythonIdentListener{}
@@ -89,13 +93,19 @@ func (s *PythonIdentListener) EnterClassdef(ctx *parser.ClassdefContext) {
 		dataStruct.Annotations = decorators
 	}
 
+	enclosingDataStructs = append(enclosingDataStructs, currentDataStruct)
 	currentDataStruct = dataStruct
 }
 
 func (s *PythonIdentListener) ExitClassdef(ctx *parser.ClassdefContext) {
 	hasEnterMember = false
 	currentCodeFile.DataStructures = append(currentCodeFile.DataStructures, *currentDataStruct)
+	// back to the enclosing class (nil at module level)
 	currentDataStruct = nil
+	if n := len(enclosingDataStructs); n > 0 {
+		currentDataStruct = enclosingDataStructs[n-1]
+		enclosingDataStructs = enclosingDataStructs[:n-1]
+	}
 }
 
 func (s *PythonIdentListener) EnterFuncdef(ctx *parser.FuncdefContext) {
